@@ -10,7 +10,8 @@ import (
 // bbolt model. kind: 0 absent, 1 empty, 2 arbitrary bytes, 3 bbolt database.
 type ghostFile struct {
 	kind int
-	gen  int // bumped on every mutation of the file's existence or content
+	gen  int     // bumped on every mutation of the file's existence or content
+	data []*Term // content, when it was written through os.WriteFile (nil: not tracked)
 }
 
 const (
@@ -45,6 +46,43 @@ func (m *Machine) newFileValue(fr *frame, name string) Value {
 	return p
 }
 
+// Errno values of linux/amd64 used by the ghost file system.
+const (
+	eNOENT = 2
+	eEXIST = 17
+	eMFILE = 24
+)
+
+// mkPathError builds the error the os package returns: *fs.PathError{Op, Path, syscall.Errno},
+// so that errors.Is / os.IsExist / os.IsNotExist classify it as they classify the real one.
+func (m *Machine) mkPathError(op, path string, errno uint64) Iface {
+	if m.P.byPath["io/fs"] == nil || m.P.byPath["syscall"] == nil {
+		return m.mkError(op + " " + path + ": " + errnoText(errno))
+	}
+	pe := m.P.namedType("io/fs", "PathError")
+	en := m.P.namedType("syscall", "Errno")
+	var cell Value = Struct{MkStr(op), MkStr(path), Iface{t: en, v: K(64, errno)}}
+	return Iface{t: types.NewPointer(pe), v: &cell}
+}
+
+func errnoText(e uint64) string {
+	switch e {
+	case eNOENT:
+		return "no such file or directory"
+	case eEXIST:
+		return "file exists"
+	case eMFILE:
+		return "too many open files"
+	case 13:
+		return "permission denied"
+	case 20:
+		return "not a directory"
+	case 21:
+		return "is a directory"
+	}
+	return fmt.Sprintf("errno %d", e)
+}
+
 // fsAdversaryPoint: the environment (another process) may create the watched path, once, just
 // before any file system operation of the code under analysis — provided the path does not
 // exist at that moment (an exclusive create by the other process). Each possibility is a
@@ -59,6 +97,7 @@ func (m *Machine) fsAdversaryPoint() {
 	}
 	if m.decideN("fs-adversary", 2, nil) == 1 {
 		g.kind = 2
+		g.data = nil
 		g.gen++
 		m.advActed = true
 		m.advGen = g.gen
@@ -74,6 +113,10 @@ func (m *Machine) osOpenFile(fr *frame, name Str, flag *Term) Value {
 	}
 	m.fsAdversaryPoint()
 	path := name.Concrete()
+	if m.fsFault {
+		// descriptor exhaustion: open fails before the kernel looks at the path
+		return Tuple{(*Value)(nil), m.mkPathError("open", path, eMFILE)}
+	}
 	g := m.ghost(path)
 	bit := func(b uint64) bool {
 		return m.branch(BNot(Cmp(OpEq, Bin(OpAnd, flag, K(64, b)), K(64, 0))))
@@ -84,33 +127,36 @@ func (m *Machine) osOpenFile(fr *frame, name Str, flag *Term) Value {
 		// dangling symbolic link: open follows it; O_CREATE creates the target (unless
 		// O_EXCL, which refuses to follow a link), anything else fails with ENOENT
 		if !create {
-			return Tuple{nilFile, m.mkError("open " + path + ": no such file or directory")}
+			return Tuple{nilFile, m.mkPathError("open", path, eNOENT)}
 		}
 		if bit(oEXCL) {
-			return Tuple{nilFile, m.mkError("open " + path + ": file exists")}
+			return Tuple{nilFile, m.mkPathError("open", path, eEXIST)}
 		}
 		g.kind = 1
+		g.data = nil
 		g.gen++
 		m.fsLog = append(m.fsLog, "create through dangling symlink "+path)
 		return Tuple{m.newFileValue(fr, path), Iface{}}
 	}
 	if g.kind == 0 {
 		if !create {
-			return Tuple{nilFile, m.mkError("open " + path + ": no such file or directory")}
+			return Tuple{nilFile, m.mkPathError("open", path, eNOENT)}
 		}
 		g.kind = 1
+		g.data = nil
 		g.gen++
 		m.fsLog = append(m.fsLog, "create "+path)
 		return Tuple{m.newFileValue(fr, path), Iface{}}
 	}
 	// exists
 	if create && bit(oEXCL) {
-		return Tuple{nilFile, m.mkError("open " + path + ": file exists")}
+		return Tuple{nilFile, m.mkPathError("open", path, eEXIST)}
 	}
 	if bit(oTRUNC) {
 		// truncation needs write access
 		if bit(oWRONLY) || bit(oRDWR) {
 			g.kind = 1
+			g.data = nil
 			g.gen++
 			m.fsLog = append(m.fsLog, "truncate "+path)
 		}
@@ -136,17 +182,22 @@ func (p *Program) installOS() {
 		path := fmt.Sprintf("/ghost/tmp/%d_%s", m.tempSeq, a[1].(Str).Concrete())
 		g := m.ghost(path)
 		g.kind = 1
+		g.data = nil
 		g.gen++
 		return Tuple{m.newFileValue(fr, path), Iface{}}
 	}
 	statFn := func(follow bool) intrinsicFn {
+		op := "lstat"
+		if follow {
+			op = "stat"
+		}
 		return func(fr *frame, a []Value) Value {
 			m := fr.m
 			m.fsAdversaryPoint()
 			path := a[0].(Str).Concrete()
 			g := m.ghost(path)
 			if g.kind == 0 || (follow && g.kind == 4) {
-				return Tuple{Iface{}, m.mkError("stat " + path + ": no such file or directory")}
+				return Tuple{Iface{}, m.mkPathError(op, path, eNOENT)}
 			}
 			// a FileInfo the code under analysis only tests for nil-ness of the error
 			return Tuple{Iface{t: types.Typ[types.String], v: MkStr("fileinfo:" + path)}, Iface{}}
@@ -154,6 +205,41 @@ func (p *Program) installOS() {
 	}
 	in["os.Stat"] = statFn(true)
 	in["os.Lstat"] = statFn(false)
+	in["os.WriteFile"] = func(fr *frame, a []Value) Value {
+		m := fr.m
+		m.fsAdversaryPoint()
+		path := a[0].(Str).Concrete()
+		g := m.ghost(path)
+		bs := sliceTerms(a[1].(Slice))
+		g.kind = 2
+		if len(bs) == 0 {
+			g.kind = 1
+		}
+		g.data = append([]*Term{}, bs...)
+		g.gen++
+		m.fsLog = append(m.fsLog, "write "+path)
+		return Iface{}
+	}
+	in["os.ReadFile"] = func(fr *frame, a []Value) Value {
+		m := fr.m
+		m.fsAdversaryPoint()
+		path := a[0].(Str).Concrete()
+		g := m.ghost(path)
+		switch {
+		case g.kind == 0 || g.kind == 4:
+			return Tuple{Slice{}, m.mkPathError("open", path, eNOENT)}
+		case g.kind == 1:
+			return Tuple{m.makeSlice(byteType, 0, 0), Iface{}}
+		case g.kind == 2 && g.data != nil:
+			sl := m.makeSlice(byteType, len(g.data), len(g.data))
+			for i, t := range g.data {
+				*sl.At(i) = t
+			}
+			return Tuple{sl, Iface{}}
+		}
+		unsupportedf("os.ReadFile of a file whose bytes the ghost file system does not track")
+		return nil
+	}
 	in["os.Rename"] = func(fr *frame, a []Value) Value {
 		m := fr.m
 		m.fsAdversaryPoint()
@@ -167,6 +253,7 @@ func (p *Program) installOS() {
 		}
 		// rename(2) replaces an existing destination atomically
 		dst.kind = src.kind
+		dst.data, src.data = src.data, nil
 		dst.gen++
 		src.kind = 0
 		src.gen++
@@ -182,9 +269,10 @@ func (p *Program) installOS() {
 		path := a[0].(Str).Concrete()
 		g := m.ghost(path)
 		if g.kind == 0 {
-			return m.mkError("remove " + path + ": no such file or directory")
+			return m.mkPathError("remove", path, eNOENT)
 		}
 		g.kind = 0
+		g.data = nil
 		g.gen++
 		m.fsLog = append(m.fsLog, "remove "+path)
 		return Iface{}
@@ -211,6 +299,7 @@ func (p *Program) installOS() {
 	in["go.etcd.io/bbolt.symSetFileKind"] = func(fr *frame, a []Value) Value {
 		g := fr.m.ghost(a[0].(Str).Concrete())
 		g.kind = fr.m.concreteInt(a[1], "file kind")
+		g.data = nil
 		g.gen++
 		return nil
 	}
@@ -221,6 +310,14 @@ func (p *Program) installOS() {
 		path := a[0].(Str).Concrete()
 		fr.m.ghost(path).gen++
 		fr.m.fsLog = append(fr.m.fsLog, "commit "+path)
+		return nil
+	}
+	in["go.etcd.io/bbolt.symRaceExempt"] = func(fr *frame, a []Value) Value {
+		if a[0].(*Term).val == 1 {
+			fr.m.raceExempt++
+		} else if fr.m.raceExempt > 0 {
+			fr.m.raceExempt--
+		}
 		return nil
 	}
 	in["go.etcd.io/bbolt.symNote"] = func(fr *frame, a []Value) Value {
@@ -302,6 +399,7 @@ func (p *Program) installVerifModels() {
 	v["verifMakeFile"] = func(fr *frame, a []Value) Value {
 		g := fr.m.ghost(a[0].(Str).Concrete())
 		g.kind = fr.m.concreteInt(a[1], "file kind")
+		g.data = nil
 		g.gen++
 		return nil
 	}
@@ -311,6 +409,15 @@ func (p *Program) installVerifModels() {
 		m.advPath = a[0].(Str).Concrete()
 		m.advActed = false
 		m.noteOnce("environment: another process may create the watched path (exclusive create, fixed content) before any file system operation of the code under analysis, at most once")
+		return nil
+	}
+	// descriptor exhaustion while on: every open fails with EMFILE (natively the harness
+	// runtime really exhausts the process's descriptors)
+	v["verifFsFault"] = func(fr *frame, a []Value) Value {
+		fr.m.fsFault = a[0].(*Term).val == 1
+		if fr.m.fsFault {
+			fr.m.noteOnce("environment: while switched on, every open fails with EMFILE (descriptor exhaustion)")
+		}
 		return nil
 	}
 	v["verifFsAdversaryStop"] = func(fr *frame, a []Value) Value {
